@@ -364,6 +364,11 @@ func (c *clientHello) parseExtensions() error {
 			//                   Empty;
 			//           };
 			//        } ECHClientHello;
+			// RFC 8446 Section 4.2: There MUST NOT be more than one
+			// extension of the same type in a given extension block.
+			if c.echExt != nil {
+				return fmt.Errorf("%w: more than one encrypted_client_hello extension", ErrIllegalParameter)
+			}
 			c.echExt = &echExt{}
 
 			if !data.ReadUint8(&c.echExt.Type) { // type
